@@ -35,7 +35,7 @@ class C01(Prop):
             "insert_assigns_fresh_id_memory", "ids_nodup_memory", "get_after_insert_memory", "bulk_insert_memory",
             "insert_assigns_fresh_id_peewee", "ids_nodup_peewee", "get_after_insert_peewee", "bulk_insert_peewee",
             "separated", "api_preserves_separation", "mutation_preserves_separation", "reachable_separated",
-            "store_owns_copy", "store_owns_copy_step",
+            "store_owns_copy", "store_owns_copy_step", "client_holds_data",
         )
     ]
     WORKERS = 10
